@@ -31,6 +31,9 @@ struct elem_t
   unsigned char gen; // number of times this object was moved from or assigned to
 
   elem_t(int const i, std::uint32_t const v) : id(i), val(v), state(alive), gen(0) {}
+#ifdef C05_DEFAULT_CTOR
+  elem_t() : id(0), val(0), state(moved_from), gen(0) {} // only where a template demands default construction (stream extraction)
+#endif
   elem_t(elem const &o) : id(o.read()), val(o.val), state(alive), gen(0) { ++g_copies; }
   elem_t(elem &&o) noexcept : id(o.read()), val(o.val), state(alive), gen(0)
   {
